@@ -123,4 +123,9 @@ theorem assign_ok (s : St) (hi : Inv s) (d src : Nat) (hd : d < s.nv) (hs : src 
         simp only [if_neg (Ne.symm hne), hsv] at this
         simpa [s2] using this
 
+theorem clear_step_ok (s : St) (hi : Inv s) (v : Nat) (hv : v < s.nv) :
+    ∃ s', step? s (.clear v) = some s' ∧ Inv s' ∧ Keeps s s' v := by
+  have h := clear_ok s hi v hv
+  exact ⟨_, by simp [step?, hv], h.1, h.2.1⟩
+
 end Nstd.Xml.Heap
